@@ -22,8 +22,12 @@ func checkC09(c *Ctx) {
 	c.Rule("C09/R6", "the flattened-field cache is only ever reset (nil + fresh Once) outside its Once-guarded builder, so fields keep tree order")
 	c.Rule("C09/R7", "fixed-list comparator ranks each listed value by its position in the list")
 
+	c.Rule("C09/R8", "every field has its own first-observation table: the map stored into Field.order (and the comparator reading it) is created inside the per-field initialiser, never captured from outside it, so the keys inside .config do not share ranks")
+	c.Rule("C09/R9", "numeric suffix scales cannot wrap: no left shift in the sorting code has an amount that provably reaches the operand's width for an entry of a literal suffix table (1<<(10*exp) is 0 from Zi on; math.Pow has no such limit)")
 	p := mustLoad(c, loadOpts{}, "./benchproc")
 	c09(c, p)
+	c09PerField(c, p)
+	c09Shifts(c, p)
 }
 
 func c09(c *Ctx, p *Prog) {
@@ -672,4 +676,71 @@ func passedToOnceDo(fn *ssa.Function) bool {
 		}
 	}
 	return false
+}
+
+func c09PerField(c *Ctx, p *Prog) {
+	const R = "C09/R8"
+	orderF := p.Field("benchproc", "Field", "order")
+	if orderF == nil {
+		c.Undecided(R, "anchor:Field.order", "", "field not found")
+		return
+	}
+	n := 0
+	for _, fn := range p.Funcs("benchproc") {
+		eachInstr(fn, func(_ *ssa.BasicBlock, in ssa.Instruction) {
+			st, ok := in.(*ssa.Store)
+			if !ok {
+				return
+			}
+			if f, _ := fieldOfAddr(st.Addr); f != orderF {
+				return
+			}
+			if k, ok := st.Val.(*ssa.Const); ok && k.IsNil() {
+				return
+			}
+			n++
+			own := true
+			why := ""
+			for _, r := range rootsOf(st.Val) {
+				switch r.Kind {
+				case rkLocal:
+					if in2, ok := r.Val.(ssa.Instruction); ok && in2.Parent() != fn {
+						own, why = false, "allocated in another function"
+					}
+				case rkConst:
+				default:
+					own, why = false, "rooted at "+r.String()
+				}
+			}
+			c.Check(own, R, fmt.Sprintf("%s:order-store#%d", fnName(fn), n), p.pos(st.Pos()), "the observation table is created where the field is initialised",
+				"the field's observation table is not created per field ("+why+"): all keys discovered inside .config share one value-to-rank table, so a value first seen under one key gets that rank under every other key and keys sort by the wrong history")
+		})
+	}
+	c.Floor(R, "stores of a field's observation table", n, 1)
+}
+
+func c09Shifts(c *Ctx, p *Prog) {
+	const R = "C09/R9"
+	sizes := p.Pkg("benchproc").TypesSizes
+	nS, nF := 0, 0
+	for _, fn := range p.Funcs("benchproc") {
+		nF++
+		ov, k := shiftOverflows(fn, sizes)
+		nS += k
+		for i, o := range ov {
+			c.Bad(R, fmt.Sprintf("%s:shift#%d", fnName(fn), i+1), p.pos(o.Instr.Pos()), fmt.Sprintf("the shift amount reaches %d for the last entries of the literal table it is derived from, but the shifted value has %d bits: the scale becomes 0, so e.g. 1ZiB and 1YiB parse as 0 and sort before 1KiB", o.Max, o.Width))
+		}
+	}
+	ctl := mustLoad(c, loadOpts{dir: c.HomeDir + "/checker"}, "./testdata/lookbehind")
+	nCtl := 0
+	for _, fn := range ctl.Funcs("perfcheck/testdata/lookbehind") {
+		ov, _ := shiftOverflows(fn, sizes)
+		nCtl += len(ov)
+	}
+	if nCtl == 0 {
+		c.Undecided(R, "positive-control", "", "the shift-range matcher no longer recognises its own positive example")
+	} else {
+		c.OK(R, "positive-control", "checker/testdata/lookbehind/lb.go", "matcher fires on the stored suffix-table shift")
+	}
+	c.OK(R, "shifts:bounded", "", fmt.Sprintf("%d variable shifts in %d functions, none with a provable out-of-range amount", nS, nF))
 }
